@@ -573,7 +573,12 @@ func init() {
 	for _, n := range []string{"syscall.Sendto", "syscall.Close", "syscall.Socket", "syscall.Bind", "syscall.Getsockname"} {
 		n := n
 		reg(n, func(ex *Exec, fr *Frame, st *State, reach string, a []Val, sig *types.Signature, pos token.Pos) Val {
-			return ex.envCall(fr, st, reach, n, sig, a, pos)
+			r := ex.envCall(fr, st, reach, n, sig, a, pos)
+			if n == "syscall.Getsockname" {
+				// (sa, err): err == nil => sa holds a non-nil pointer
+				ex.sc.assert(mkImp(mkEq(r.Tup[1].L[0], "0"), mkAnd(mkCmp(">", r.Tup[0].L[0], "0"), mkCmp(">", r.Tup[0].L[1], "0"))))
+			}
+			return r
 		})
 	}
 	reg("syscall.Recvfrom", func(ex *Exec, fr *Frame, st *State, reach string, a []Val, sig *types.Signature, pos token.Pos) Val {
@@ -583,6 +588,8 @@ func init() {
 		ex.logEnvResults(st, entry, res)
 		// err == nil => 0 <= n <= len(buf); the buffer contents are arbitrary afterwards
 		ex.sc.assert(mkImp(mkEq(res[2].L[0], "0"), mkAnd(mkCmp(">=", res[0].term(), "0"), mkCmp("<=", res[0].term(), a[1].L[2]))))
+		// a Sockaddr returned by the syscall package is nil or holds a non-nil pointer
+		ex.sc.assert(mkImp(mkNot(mkEq(res[1].L[0], "0")), mkCmp(">", res[1].L[1], "0")))
 		bt := types.Typ[types.Uint8]
 		name := compE(bt, 0)
 		srt := sArr(sInt, sArr(sInt, sInt))
